@@ -193,3 +193,31 @@ Lemma auto_examples_fit :
   fits_label_b (auto_input KC4Person 300 40) C4Person = true /\ fits_label_b (auto_input KCloud 100 40) Cloud = true
   /\ fits_label_b (auto_input KCircle 57 21) Circle = true.
 Proof. repeat split; vm_compute; reflexivity. Qed.
+
+(* ---- only one of the two given (the property makes no claim; recorded for completeness) ---- *)
+
+Definition ar_limited (kd : kind) : bool := match kd with KPerson | KOval => true | _ => false end.
+
+Theorem explicit_width_alone_honoured :
+  forall i a,
+    dw i = Some a -> a <> 0%Z -> aspect1 (k i) = false -> never_shrink i = false -> k i <> KImage ->
+    ar_limited (k i) = false -> (label_empty i = false \/ k i = KClass \/ k i = KSqlTable) ->
+    fst (set_dimensions i) = inject_Z a.
+Proof.
+  intros i a Ha Na HA HN HI AR L.
+  unfold set_dimensions, size_to_content. rewrite Ha, HA, HN, is_set_some by assumption.
+  assert (E : label_empty i && negb match k i with KImage | KSqlTable | KClass => true | _ => false end = false).
+  { destruct L as [L|[L|L]]; rewrite L; [reflexivity| |]; now rewrite andb_false_r. }
+  rewrite E. destruct (content i) as [cw ch]. destruct (paddings i) as [px py].
+  destruct (k i) eqn:K; try congruence; try discriminate HA; try discriminate AR;
+    match goal with |- context [fit_of ?i ?a ?b ?c ?d] => destruct (fit_of i a b c d) end;
+    destruct (negb (is_set (dh i)) || negb true); reflexivity.
+Qed.
+
+(* ... but on person and oval the aspect-ratio limit overrides an explicit width given alone:
+   `x: <label 20x300> {shape: oval; width: 50}` is 160 wide *)
+Lemma explicit_width_alone_overridden_oval :
+  fst (set_dimensions {| k := KOval; label_empty := false; lang := false; lw := 20; lh := 300; font := 16;
+                         tw := 0; th := 0; dw := Some 50%Z; dh := None; icon := false; linktip := false;
+                         oc := 1 # 15; os := 1 |}) == 160.
+Proof. vm_compute. reflexivity. Qed.
